@@ -327,6 +327,11 @@ class Dimension(metaclass=_Interned):
         symbol: Optional[str] = None,
     ) -> None:
         if self._initialized:
+            # a dimension may first come about anonymously and only be named later
+            if name and not self.name:
+                self.name = name
+                self.symbol = symbol
+                self._by_name[name] = self
             return
 
         self.exponents = self._widened(exponents)
